@@ -113,8 +113,23 @@ def generic_rotations(n=6, seed=0):
     return out
 
 
+def _quick_cube_subset():
+    """Identity, all three axis half-turns (q0 = 0: the degenerate cases of quaternion-based superposition), two
+    diagonal half-turns, two quarter turns and one 120-degree turn."""
+    out, seen = [], {}
+    for m in cube_rotations():
+        ang = int(round(np.degrees(np.arccos(np.clip((np.trace(m) - 1) / 2, -1, 1)))))
+        axis_aligned = int(np.abs(np.diag(m)).sum()) >= 1 and ang in (90, 180) and np.count_nonzero(np.diag(m) == 1) == 1
+        key = (ang, axis_aligned)
+        limit = {(0, False): 1, (180, True): 3, (180, False): 2, (90, True): 2, (120, False): 1}.get(key, 0)
+        if seen.get(key, 0) < limit:
+            seen[key] = seen.get(key, 0) + 1
+            out.append(m)
+    return out
+
+
 def rotations(quick=False, seed=0):
-    return (cube_rotations()[::4] if quick else cube_rotations()) + generic_rotations(3 if quick else 6, seed)
+    return (_quick_cube_subset() if quick else cube_rotations()) + generic_rotations(3 if quick else 6, seed)
 
 
 def halton(i, base):
